@@ -41,6 +41,8 @@ def place_demo(demo_dir, wt):
                 dst_dir = os.path.join(wt, rel)
             else:
                 dst_dir = {"stack": "stack", "stack_test": "stack", "internal": "internal", "webstack": "stack/webstack", "webstack_test": "stack/webstack"}.get(pkg)
+                if dst_dir is None and pkg == "main" and f.endswith("_test.go") and os.path.exists(os.path.join(wt, "main.go")):
+                    dst_dir = "."  # a test of the module's root package
                 if dst_dir is None:
                     dst_dir = os.path.join("zz_demo_main")
                 dst_dir = os.path.join(wt, dst_dir)
